@@ -11,12 +11,12 @@ def gen_histories(d, n, hlen, steps, seed, quick):
     cfg = os.path.join(d, 'histgen.cfg')
     open(cfg, 'w').write('SPECIFICATION Spec\nCONSTANTS\n ShapeIds = {1, 2, 3}\n ConnIds = {1, 2}\n HLEN = %d\n MAXSTEPS = %d\nINVARIANTS EmitHist\nCHECK_DEADLOCK FALSE\n' % (hlen, steps))
     r = V.tlc(os.path.join(SP, 'RouterApiMC.tla'), cfg, timeout=600, simulate='num=%d' % (n * 2), extra=['-depth', str(hlen + 2)], seedv=seed, workers=4)
-    hs = sorted(set(re.findall(r'<<"HIST", "(.*)">>', r.out)))
+    hs = V.emitted_histories(r.out)
     rnd = random.Random(seed)
     rnd.shuffle(hs)
     out = []
     for h in hs:
-        ops = json.loads(h.replace('\\"', '"'))
+        ops = json.loads(h)
         # generator rule: a connector's two ends are never put on the same point (degenerate, outside the statement)
         ends = {1: [(1, 7), (13, 7)], 2: [(7, 1), (7, 13)]}
         ok = True
